@@ -597,19 +597,19 @@ func (m *w1mon) onReceived(d *gkDeco, r *recvPartObs) {
 			return
 		}
 	}
-	for _, rd := range s.reads {
-		// the encoder reads a part in one open/seek; bytes read may extend beyond (never: it stops at end)
-		if rd.Name == r.Desc.Name && rd.Pos == r.Desc.Beg && rd.N == want {
-			s.violate("C13", "part-bytes-differ", "part %s: receiver got md5 %s, the encoder read md5 %s", r.Desc, short(r.MD5), short(rd.MD5))
-			return
-		}
-	}
 	if s.liveReadMatches(r.Desc.Name, r.Desc.Beg, r.Desc.End, r.MD5) {
 		return // read through a handle the encoder still has open
 	}
 	if s.sourceEndedInside(r.Desc.Name, r.Desc.Beg, r.Desc.End) {
 		s.stat("probe:part-of-shrunk-source")
 		return
+	}
+	for _, rd := range s.reads {
+		// the encoder reads a part in one open/seek; bytes read may extend beyond (never: it stops at end)
+		if rd.Name == r.Desc.Name && rd.Pos == r.Desc.Beg && rd.N == want {
+			s.violate("C13", "part-bytes-differ", "part %s: receiver got md5 %s, the encoder read md5 %s", r.Desc, short(r.MD5), short(rd.MD5))
+			return
+		}
 	}
 	var seen []string
 	for _, rd := range s.reads {
@@ -676,6 +676,37 @@ func (m *w1mon) final() {
 			v := vs[len(vs)-1]
 			if got := sent[name+"|"+v.MD5]; got != v.Size && s.eligible(name, v) {
 				s.violate("C11", "bytes-not-sent-exactly-once", "fault-free run transmitted %d bytes of %s (size %d)", got, name, v.Size)
+			}
+		}
+	}
+	// a request that nothing interfered with is decoded: the receiver must not
+	// refuse what the sender encoded (503 "not ready yet" is not a refusal)
+	if s.on("C13") && s.sc.FaultFree && s.nFaults == 0 {
+		for _, t := range s.ob.tx {
+			if strings.HasPrefix(t.Err, "status") && t.Err != "status503" {
+				s.violate("C13", "intact-request-refused", "data request tx#%d (%d parts, %d bytes) reached the receiver untouched and was answered %s", t.ID, len(t.Parts), t.Size, t.Err)
+				break
+			}
+		}
+	}
+	// a chunk the queue emitted is cut into payload parts that cover it: none
+	// of its bytes may get lost between queue and payload. Judged in runs
+	// without faults (no retry can hold a payload back) for chunks emitted
+	// long before the end, settled or not.
+	if s.on("C11") && s.sc.FaultFree && s.nFaults == 0 && len(s.sc.Env) == 0 && s.crashFree() && s.ob.stopStep < 0 && s.noRequestFailed() {
+		cov := map[string][]rng{}
+		for _, t := range s.ob.tx {
+			for _, p := range t.Parts {
+				cov[p.Name+"|"+p.Hash] = append(cov[p.Name+"|"+p.Hash], rng{p.Beg, p.End})
+			}
+		}
+		for _, p := range s.ob.pops {
+			if p.Len <= 0 || p.Step+400 > s.step {
+				continue
+			}
+			if !covered(cov[p.Name+"|"+p.Hash], p.Beg, p.Beg+p.Len) {
+				s.violate("C11", "chunk-bytes-never-put-in-a-payload", "the queue emitted chunk %s[%d:+%d] at step %d; %d steps later no payload has carried all of its bytes (carried: %v)", p.Name, p.Beg, p.Len, p.Step, s.step-p.Step, cov[p.Name+"|"+p.Hash])
+				break
 			}
 		}
 	}
